@@ -590,6 +590,40 @@ def run(tier):
             groupb.append((case, prod))
         same_group(groupb, fail, scb, stats)
 
+        # the default ortho helper (no projection helper given): the ortho bounds then come from RadarCollection.Area.Plane, which may be
+        # much larger than the image, so that whole processing blocks fall outside the source.  Those blocks are all fill; creation
+        # must succeed for every block configuration and give the same pixels
+        from sarpy.processing.ortho_rectify import NearestNeighborMethod as _NN
+        from sarpy.processing.sidd import sidd_product_creation as _spc
+        from sarpy.io.product.converter import open_product as _open_product
+        sca = scenes[0] if not scenes[0].cfg.get('no_area') else None
+        if sca is not None and sca.sicd.RadarCollection is not None and sca.sicd.RadarCollection.Area is not None:
+            outs = []
+            for bcfg in ({'block_size': 10, 'dimension': 0}, {'block_size': 0.25, 'dimension': 0}, {'block_size': 0.25, 'dimension': 1}):
+                case = {'scene': sca.cfg, 'geometry': 'area-plane-default-helper', 'block': bcfg, 'version': 2, 'proj': 'default helper', 'pad': 7}
+                products += 1
+                feats.add(('area-plane-default-helper', bcfg['block_size'], bcfg['dimension']))
+                name = 'area_%s_%d.nitf' % (bcfg['block_size'], bcfg['dimension'])
+                try:
+                    oh_a = _NN(sca.reader, index=0, pad_value=7)
+                    _spc.create_detected_image_sidd(oh_a, tmp, output_file=name, block_size=bcfg['block_size'], dimension=bcfg['dimension'],
+                                                    version=2, remap_function=make_remap(16, sca))
+                    rd_a = _open_product(os.path.join(tmp, name))
+                    try:
+                        outs.append((case, numpy.array(rd_a[:, :])))
+                    finally:
+                        rd_a.close()
+                        os.remove(os.path.join(tmp, name))
+                except Exception as ex:
+                    fail('create:raises:' + type(ex).__name__, f'create_detected_image_sidd with the default ortho helper (ortho bounds from the {sca.sicd.RadarCollection.Area.Plane.XDir.NumLines} x '
+                                                               f'{sca.sicd.RadarCollection.Area.Plane.YDir.NumSamples} area plane of a {sca.rows} x {sca.cols} image) raised {type(ex).__name__}: {ex}',
+                         dict(case, traceback=traceback.format_exc()[-1500:]))
+            for case, img in outs[1:]:
+                evaluations += img.size
+                if img.shape != outs[0][1].shape or not numpy.array_equal(img, outs[0][1]):
+                    fail('blocks:product-differs', f'default ortho helper: the product of block configuration {case["block"]} differs from that of {outs[0][0]["block"]}', case)
+            stats['area_plane_products'] = len(outs)
+
         # ============================================================ A. correspondence at Float
         sc0 = scenes[0]
         # A1 plane maps of real PGProjection objects
